@@ -90,9 +90,17 @@ func zzH_c01_za_layout() {
 	P256Sm2()
 	kxs := []int{1, 2, 31, 32}
 	kx, ky := kxs[vChoice("kx", 4)], kxs[vChoice("ky", 4)]
-	xb, yb := vBytes("x", kx, kx), vBytes("y", ky, ky)
-	vAssume(xb[0] != 0 && yb[0] != 0)
-	pub := &PublicKey{Curve: P256Sm2(), X: new(big.Int).SetBytes(xb), Y: new(big.Int).SetBytes(yb)}
+	// coordinates with exactly kx / ky significant bytes: the top byte is 1 + (v mod 255), which is
+	// non-zero by construction, so the lengths of the byte strings stay concrete on every path
+	mk := func(name string, k int) *big.Int {
+		top := new(big.Int).SetUint64(1 + vU64(name+".top")%255)
+		top.Lsh(top, uint(8*(k-1)))
+		if k == 1 {
+			return top
+		}
+		return top.Add(top, new(big.Int).SetBytes(vBytes(name+".rest", k-1, k-1)))
+	}
+	pub := &PublicKey{Curve: P256Sm2(), X: mk("x", kx), Y: mk("y", ky)}
 	maxU := 3
 	if vTier() == 1 {
 		maxU = 16
